@@ -193,7 +193,9 @@ impl<S: Storage> Node<S> {
 pub fn decode_set(bytes: &[u8]) -> Result<Set2, String> {
     let mut aligned = rkyv::AlignedVec::with_capacity(bytes.len());
     aligned.extend_from_slice(bytes);
-    rkyv::from_bytes::<Set2>(&aligned).map_err(|e| format!("set does not decode: {e}"))
+    // the crate's own public decoder: a set may keep derived data out of its archived form
+    // and rebuild it there
+    Set2::from_bytes(&aligned).map_err(|_| "set does not decode".to_string())
 }
 
 /// (live rows, tombstone rows) of a set, as (id, stamp) pairs.
